@@ -175,6 +175,30 @@ func init() {
 			return nil
 		}
 		switch typeKey(iv.Alts[0].T) {
+		case "*net.UDPAddr", "*net.TCPAddr":
+			// the text of a socket address: abstract, but it determines the address (net.textIP / net.textPort)
+			p, ok := iv.Alts[0].Val.(*VPtr)
+			if !ok || p.Obj == nil {
+				return nil
+			}
+			if !ex.decide(st, Not(p.Nil)) {
+				return ex.fresh("addr.text", SStr)
+			}
+			vs, ok := ex.load(st, p, instr).(*VStruct)
+			if !ok || len(vs.Fields) < 2 {
+				return nil
+			}
+			ip, ok1 := vs.Fields[0].(*VSlice)
+			port, ok2 := vs.Fields[1].(*Term)
+			if !ok1 || !ok2 {
+				return nil
+			}
+			r := ex.fresh("sockaddr.text", SStr)
+			st.assume(Eq(App("net.textPort", SInt, r), port))
+			if ex.decide(st, Eq(ip.Len, IntLit(4))) {
+				st.assume(Eq(App("net.textIP", SInt, r), be32(ex.sliceByte(st, ip, 0), ex.sliceByte(st, ip, 1), ex.sliceByte(st, ip, 2), ex.sliceByte(st, ip, 3))))
+			}
+			return r
 		case "net/netip.Addr":
 			kind, bits, _, _ := addrParts(iv.Alts[0].Val)
 			r := ex.fresh("addr.text", SStr)
